@@ -131,6 +131,7 @@ type Scenario struct {
 	MaxSteps  int                       // default 4000
 	NoCache   bool                      // disable the happens-before state cache (self-check)
 	IdleGap   int64                     // ns; quiescent timers further away than this end the run (default 30 min)
+	Horizon   int64                     // ns; 0 = none. At quiescence the clock is not advanced beyond this (polling loops never go quiet)
 }
 
 // Failure is one violated clause of the oracle.
@@ -322,7 +323,7 @@ func (x *Exec) pick() *Thread {
 					min = t.op.due
 				}
 			}
-			if min == 0 || min-x.clock > idle {
+			if min == 0 || min-x.clock > idle || (x.sc.Horizon > 0 && min > x.sc.Horizon) {
 				return nil
 			}
 			x.clock = min
@@ -330,7 +331,7 @@ func (x *Exec) pick() *Thread {
 		}
 		if x.sc.TimerDev {
 			for _, t := range x.order {
-				if !t.done && t.op != nil && t.op.due > x.clock && t.op.due-x.clock <= idle && !x.isReady(t) {
+				if !t.done && t.op != nil && t.op.due > x.clock && t.op.due-x.clock <= idle && (x.sc.Horizon == 0 || t.op.due <= x.sc.Horizon) && !x.isReady(t) {
 					c := int32(1)
 					if x.sc.Delay {
 						c = int32(len(alts))
